@@ -139,6 +139,8 @@ def cases(tier, seed):
     for mod, name in ((c05, "c05"), (c06, "c06"), (c07, "c07"), (c09, "c09")):
         for c in mod.cases(tier, seed):
             if c["expect"] == "err" and c.get("fault_line"):
+                if any(t.startswith("faults:") and t != "faults:1" for t in c["tags"]):
+                    continue   # the single-fault space: sequences of the scope / constructor machines with more than one fault are not in it
                 if quick and (zlib.crc32(c["id"].encode()) % 3):
                     continue
                 yield {"id": "c19-" + c["id"], "family": "c19.typefault." + name, "mode": "single", "src": c["src"], "fault_line": c["fault_line"], "tags": c["tags"][:4] + ["from:" + c["family"]]}
